@@ -7,6 +7,7 @@ CONSTANTS
   Mode = "edit"
   MaxOps = 30
   MaxMut = 2
+  MaxConds = 1
   MaxObs = 2
   MaxRagged = 0
   MaxRaggedInt = 0
@@ -17,5 +18,6 @@ INVARIANT TypeOK
 INVARIANT C19_Header
 INVARIANT C19_RowCount
 INVARIANT C19_CellIsFormattedValue
+INVARIANT SolvedHolderComplete
 CONSTRAINT Emit
 CHECK_DEADLOCK FALSE
